@@ -11,3 +11,5 @@ register_simp_attr uframe
 register_simp_attr rframe
 /-- frame lemmas for the bank ledger -/
 register_simp_attr bframe
+/-- frame lemmas for the unbonding queue alone -/
+register_simp_attr qframe
